@@ -195,6 +195,33 @@ fn eval_surface(root: &PathBuf, tag: usize, w: i32, h: i32, px: &[u32]) -> Resul
                 return Err(("writes-with-open-layer-survive-the-pop".into(), format!("{:x?} expected {:x?}", dt.get_data(), want)));
             }
             dt.get_data_mut().copy_from_slice(px);
+            // into_vec / into_inner hand back the surface's words as the views showed them, also when
+            // layers are still open (drawn into, composited with Src, nested under a clip rectangle):
+            // consuming the target does not composite anything
+            for variant in 0..3 {
+                for inner in [false, true] {
+                    let mut t = DrawTarget::from_vec(w, h, px.to_vec());
+                    match variant {
+                        0 => {
+                            t.push_layer(1.0);
+                            t.clear(SolidSource { r: 0x10, g: 0x80, b: 0x20, a: 0xff });
+                        }
+                        1 => t.push_layer_with_blend(0.5, BlendMode::Src),
+                        _ => {
+                            t.push_clip_rect(IntRect::new(IntPoint::new(0, 0), IntPoint::new((w - 1).max(1), h)));
+                            t.push_layer(0.5);
+                            t.clear(SolidSource { r: 0x40, g: 0x40, b: 0x40, a: 0x40 });
+                            t.push_layer_with_blend(1.0, BlendMode::Xor);
+                            t.clear(SolidSource { r: 0xff, g: 0xff, b: 0xff, a: 0xff });
+                        }
+                    }
+                    let shown = t.get_data().to_vec();
+                    let out = if inner { t.into_inner() } else { t.into_vec() };
+                    if shown != px || out != px {
+                        return Err((format!("{}-with-open-layer", if inner { "into_inner" } else { "into_vec" }), format!("variant {}: get_data showed {:x?}, the consumed target returned {:x?}, the surface holds {:x?}", variant, shown, out, px)));
+                    }
+                }
+            }
         }
         // PNG export
         if w > 0 && h > 0 {
